@@ -569,6 +569,7 @@ func (x *arun) run(r *h.Run, e *appEnv, mon *dl.Monitor) {
 	c5 := dl.NewControl(ub + stuckFirst)
 	late := func() {
 		x.incon = fmt.Sprintf("close seen only %s after the keep-alive deadline", dl.Ms(tEOF-ub))
+		l, fired = c0.Late()
 		g := mon.MaxGap(ub, tEOF)
 		if fired && l <= maxCtlLate && g <= maxMonGap {
 			x.incon = ""
